@@ -224,12 +224,17 @@ impl Nfa {
         match expr.kind() {
             HirKind::Empty => Ok(accept),
 
-            HirKind::Literal(Literal(l)) => Ok(l.iter().rev().fold(accept, |accept, &b| {
-                let s0 = self.new_state(StateKind::Neither);
-                self.push_edge(s0, Test::byte(b), accept);
-                self.push_edge(s0, Other, reject);
-                s0
-            })),
+            HirKind::Literal(Literal(l)) => {
+                // The literal holds the UTF-8 encoding of its text, while the automaton (like the
+                // classes below) works on code points: walk it char by char, not byte by byte.
+                let text = std::str::from_utf8(l).map_err(|_| NfaConstructionError::ByteRegex)?;
+                Ok(text.chars().rev().fold(accept, |accept, c| {
+                    let s0 = self.new_state(StateKind::Neither);
+                    self.push_edge(s0, Test::char(c), accept);
+                    self.push_edge(s0, Other, reject);
+                    s0
+                }))
+            }
 
             HirKind::Class(class) => {
                 match *class {
